@@ -37,7 +37,8 @@ def make_cases(rng, tier, n):
             elif st == "fifo":
                 ops.append(("fifo", f[1]))
             elif st == "extra":
-                ops.append(("write", f[1] + b".extra", "g:%d:9" % rng.randrange(100)))
+                # an unrelated file next to the artifact, possibly with a name a temp-file scheme would pick
+                ops.append(("write", f[1] + rng.choice([b".extra", b".tmp", b".tmp", b".new", b".part", b"~", b".bak"]), "g:%d:9" % rng.randrange(100)))
         if dirs_in and rng.random() < 0.3:
             d = rng.choice(dirs_in)[1]
             ops.append(("write", d, "g:1:5"))        # a file where a directory is expected
